@@ -25,7 +25,7 @@ Edges(e) == {[p |-> e.ep[i], c |-> e.ec[i], role |-> e.er[i], i |-> e.ei[i]] : i
 SrcOf(e) == [objs |-> Objs(e), edges |-> Edges(e), top |-> e.top, tag |-> e.tag, single |-> e.single = 1]
 TarOf(e) == [names |-> e.names, types |-> e.types, alg |-> e.alg, hex |-> e.hex, calc |-> e.calc, sha |-> e.sha,
              layoutN |-> e.layoutN, layoutV |-> e.layoutV, indexN |-> e.indexN, idigs |-> e.idigs, irefs |-> e.irefs,
-             dockN |-> e.dockN, dcfg |-> e.dcfg, dlayers |-> e.dlayers, dtags |-> e.dtags]
+             dockN |-> e.dockN, dcfg |-> e.dcfg, dlayers |-> e.dlayers, dtags |-> e.dtags, dforms |-> e.dforms]
 
 TInit == PInit /\ l = 1
 TNext ==
